@@ -694,6 +694,27 @@ static void exec_op(const Op& o)
     sigc::connection** d = g_cn->get(A(0)); sigc::connection** s = g_cn->get(A(1));
     if (d && s) **d = **s; else ev("-");
   }
+  // moving a sigc::connection (it has no move operations of its own: the source stays a valid handle)
+  else if (m == "cmove")
+  {
+    sigc::connection** co = g_cn->get(A(1));
+    if (co && g_cn->fresh(A(0))) g_cn->put(A(0), new sigc::connection(std::move(**co))); else ev("-");
+  }
+  else if (m == "cmasg")
+  {
+    sigc::connection** d = g_cn->get(A(0)); sigc::connection** s = g_cn->get(A(1));
+    if (d && s) **d = std::move(**s); else ev("-");
+  }
+  else if (m == "knewm")
+  {
+    sigc::connection** c = g_cn->get(A(1));
+    if (c && g_kn->fresh(A(0))) g_kn->put(A(0), new sigc::scoped_connection(std::move(**c))); else ev("-");
+  }
+  else if (m == "kasgm")
+  {
+    sigc::scoped_connection** k = g_kn->get(A(0)); sigc::connection** c = g_cn->get(A(1));
+    if (k && c) **k = std::move(**c); else ev("-");
+  }
   else if (m == "cdisc") { sigc::connection** c = g_cn->get(A(0)); if (c) (*c)->disconnect(); else ev("-"); }
   else if (m == "cblock")
   {
@@ -779,7 +800,7 @@ static const std::map<std::string, int>& arity()
     {"tnew",1},{"tnewsh",1},{"trel",1},{"tdel",1},{"tasg",2},{"tmasg",2},{"tnot",1},
     {"scopy",2},{"smove",2},{"sasg",2},{"smasg",2},{"scall",3},{"sblock",2},{"sdisc",1},{"sdel",1},{"sq",1},
     {"gcopy",2},{"gmove",2},{"gasg",2},{"gmasg",2},{"gdel",1},{"gconn",5},{"gemit",3},{"gclear",1},{"gblock",2},{"gq",1},{"gmk",2},
-    {"cempty",1},{"ccopy",2},{"casg",2},{"cdisc",1},{"cblock",2},{"cdel",1},{"cq",1},
+    {"cempty",1},{"ccopy",2},{"casg",2},{"cmove",2},{"cmasg",2},{"knewm",2},{"kasgm",2},{"cdisc",1},{"cblock",2},{"cdel",1},{"cq",1},
     {"knew",2},{"kempty",1},{"kasg",2},{"kmove",2},{"kmasg",2},{"kswap",2},{"krel",2},{"kdisc",1},{"kblock",2},{"kdel",1},{"kq",1},
     {"probe",0},{"throw",0}};
   return a;
